@@ -403,15 +403,16 @@ class NotIf(Sub):
 class OneCellArgs(Sub):
     name = 'c12.one_cell_args'
     rule = ('a one-cell range ([[v]]), a one-item array ([v]) and a value nested three deep ([[[v]]]) given where ONE value is expected '
-            'is that value: NOT, IF, IFS, SWITCH (target), the five type predicates, ISNONTEXT, ISERR, ISNA, ISEVEN, ISODD and the '
+            'is that value: NOT, IF, IFS, SWITCH (target and cases), IFERROR, IFNA, ERROR.TYPE, the five type predicates, ISNONTEXT, ISERR, ISNA, ISEVEN, ISODD and the '
             'flag of TEXTJOIN over 11 values incl. blank and an error value give what they give for the bare value (differential '
             'against the scalar evaluation); non-trivial = all')
     min_cases = 30
     min_nontrivial = 30
     FORMS = ['NOT(xa)', 'IF(xa,"then","else")', 'IFS(xa,"first",TRUE,"second")', 'SWITCH(xa,5,"five",TRUE,"true","other")', 'ISNUMBER(xa)',
              'ISTEXT(xa)', 'ISNONTEXT(xa)', 'ISLOGICAL(xa)', 'ISBLANK(xa)', 'ISERROR(xa)', 'ISERR(xa)', 'ISNA(xa)', 'ISEVEN(xa)', 'ISODD(xa)',
-             'TEXTJOIN("-",xa,"a",,"b")', 'IFS(FALSE,1,xa,2,TRUE,3)']
-    VALS = [0, 5, 4, -2.5, True, False, None, '', 'abc', {'$err': '#DIV/0!'}, {'$err': '#N/A'}]
+             'TEXTJOIN("-",xa,"a",,"b")', 'IFS(FALSE,1,xa,2,TRUE,3)', 'SWITCH(5,xa,"hit","miss")', 'SWITCH(TRUE,0,"zero",xa,"hit","miss")',
+             'IFERROR(xa,"trapped")', 'IFNA(xa,"na")', 'ERROR.TYPE(xa)', 'SWITCH("abc",xa,"hit")']
+    VALS = [0, 5, 4, -2.5, True, False, None, '', 'abc', {'$err': '#DIV/0!'}, {'$err': '#N/A'}, 'hostmade:#N/A', 'hostmade:#DIV/0!']
 
     def cases(self, tier, unit):
         for fi in range(len(self.FORMS)):
@@ -419,11 +420,18 @@ class OneCellArgs(Sub):
                 yield [fi, vi]
 
     def check(self, env, case):
-        f, v = self.FORMS[case[0]], env.dec(self.VALS[case[1]])
+        f, v = self.FORMS[case[0]], self.VALS[case[1]]
+        # an error object of the host's own making (not the library's shared one) - also inside the wrappers
+        v = env.err.XLError(v.split(':')[1]) if isinstance(v, str) and v.startswith('hostmade:') else env.dec(v)
         env.nt()
+        def bare(o):
+            # a function that hands its argument on (IFERROR of something that is no error) may hand the one-cell range on as it is
+            while o[0] == 'v' and isinstance(o[1], list) and len(o[1]) == 1:
+                o = ['v', o[1][0]]
+            return o
         base = env.evo(f, vars={'xa': v})
         for w, how in (([[v]], 'a one-cell range'), ([v], 'a one-item array'), ([[[v]]], 'nested three deep')):
-            o = env.evo(f, vars={'xa': w})
+            o = bare(env.evo(f, vars={'xa': w}))
             if o != base:
                 return fail('%s with xa = %r (%s) gives %r, with the bare value %r it gives %r' % (f, w, how, o, v, base), base, o)
         return None
